@@ -69,6 +69,10 @@ class State:
             def visit_Subscript(self, n):
                 n2 = ast.Subscript(value=self.visit(n.value), slice=self.visit(n.slice) if not isinstance(n.slice, ast.Constant) else n.slice,
                                    ctx=ast.Load())
+                if isinstance(n2.value, (ast.Tuple, ast.List)) and isinstance(n2.slice, ast.Constant) and isinstance(n2.slice.value, int) \
+                        and not isinstance(n2.slice.value, bool) and -len(n2.value.elts) <= n2.slice.value < len(n2.value.elts) \
+                        and not any(isinstance(x, ast.Starred) for x in n2.value.elts):
+                    return n2.value.elts[n2.slice.value]        # (a, b, c)[1] with a literal tuple (a row of a constant table) is b
                 if heap and isinstance(n2.slice, ast.Constant):
                     base = _key(n2.value)
                     if base is not None:
